@@ -191,6 +191,7 @@ fn run_job(job: Job, w: &mut Worker, ctx: &Ctx) {
     let mut rng = Rng::new(ctx.seed).fork(&format!("c12-{}-{}-{}", alg.name(), job.w, job.part));
     let mut ck = Checker { r: &mut w.report, alg, code, rfc, libo };
 
+    let thin = ctx.miri;
     if job.part == 0 {
         // parameter table
         ck.r.eval();
@@ -214,19 +215,21 @@ fn run_job(job: Job, w: &mut Worker, ctx: &Ctx) {
             None => ck.r.violation(&ck.key("type_unknown"), "LM-OTS type code not known to the library", J::Null),
         }
         // exhaustive digit extraction: every byte position x every byte value, on two backgrounds
-        for bg in [0x00u8, 0xa5] {
+        let backgrounds: &[u8] = if thin { &[0xa5] } else { &[0x00, 0xa5] };
+        for &bg in backgrounds {
             for pos in 0..n {
-                for val in 0..=255u8 {
+                for val in (0..=255u8).step_by(if thin { 51 } else { 1 }) {
                     let mut d = vec![bg; n];
                     d[pos] = val;
                     ck.check(&d, &format!("byte{pos}"));
                 }
             }
         }
-        ck.r.count("exhaustive_byte_cases", (2 * n * 256) as i128);
+        ck.r.count("exhaustive_byte_cases", (backgrounds.len() * n * if thin { 6 } else { 256 }) as i128);
         // exhaustive over every attainable checksum value
         let max = (1u32 << job.w) - 1;
-        for target in 0..=(rfc.u as u32 * max) {
+        let tstep = if thin { ((rfc.u as u32 * max) / 24).max(1) as usize } else { 1 };
+        for target in (0..=(rfc.u as u32 * max)).step_by(tstep) {
             // digest whose digits sum to u*max - target  (checksum = target)
             let mut d = vec![0u8; n];
             let mut need = rfc.u as u32 * max - target;
@@ -252,7 +255,7 @@ fn run_job(job: Job, w: &mut Worker, ctx: &Ctx) {
         ck.r.count("checksum_values", (rfc.u as u32 * max + 1) as i128);
     }
     // random digests + adversarial neighbours
-    let randoms = ctx.size(400_000, 4_000_000) / job.parts.max(1);
+    let randoms = if thin { ctx.size(24, 200) } else { ctx.size(400_000, 4_000_000) / job.parts.max(1) };
     let max = (1u32 << job.w) - 1;
     let mut prev: Option<(Vec<u8>, Vec<u8>)> = None;
     for k in 0..randoms {
@@ -372,8 +375,17 @@ enum Task {
 pub fn run(ctx: &Ctx) -> Report {
     let mut tasks = Vec::new();
     let parts = 4;
+    let mut k = 0usize;
     for alg in model::ALL_ALGS {
         for wv in [1u32, 2, 4, 8] {
+            if ctx.miri {
+                // Miri stage: the encoding functions only (no hashing), thinned, this shard's share
+                if ctx.mine(k) {
+                    tasks.push(Task::Enc(Job { alg, w: wv, part: 0, parts: 1 }));
+                }
+                k += 1;
+                continue;
+            }
             for part in 0..parts {
                 tasks.push(Task::Enc(Job { alg, w: wv, part, parts }));
             }
@@ -386,6 +398,13 @@ pub fn run(ctx: &Ctx) -> Report {
         Task::Enc(j) => run_job(j, w, ctx),
         Task::E2e(a, wv) => end_to_end(a, wv, w, ctx),
     });
+    if ctx.miri {
+        rep.rule = "Miri stage: the real append_checksum_to + coef (hook) under the interpreter for this shard's share of the 12 (n,w) x 2 hash families: parameter table, thinned byte-position x value sweep, 24 checksum values spread over the attainable range, random digests with neighbour pairs; same Appendix-B oracle".into();
+        if rep.counter("parameter_sets") == 0 {
+            rep.inconclusive("the interpreter evaluated no parameter set");
+        }
+        return rep;
+    }
     rep.exhaustive = Some(true);
     rep.rule = "for all 12 (n,w) under both hash families, through the hook that runs the real append_checksum_to + coef: exhaustive over every digest byte position x byte value (two backgrounds) and over every attainable checksum value 0..u(2^w-1) (a digest is constructed per value); random digests with extreme bytes; domination search on neighbours (one digit raised, sum-preserving swaps, byte to 0xff) and random pairs; chain positions recovered from released signatures compared with the hook; \
                 oracle = Appendix-B formulas (p, ls, coef, Cksm); distinct_nontrivial = distinct (hash, w, case class incl. byte position)"
